@@ -146,6 +146,19 @@ func main() {
 		try(func() { r := a.FirstErr([]error{e}); record("a.FirstErr", 0, r == nil, true, r) })
 	}
 	try(func() { r := a.First([]*int{nil}); record("a.First", 0, r == nil, false, r) })
+	for _, bb := range bools {
+		for _, e := range []error{nil, &a.DErr{}, fmt.Errorf("x")} {
+			try(func() { r := a.Describe(e, bb); record("a.Describe", 0, r == nil, true, r) })
+		}
+		for _, p := range []*int{nil, new(int)} {
+			try(func() { r := a.DescribePtr(p, bb); record("a.DescribePtr", 0, r == nil, false, r) })
+		}
+	}
+	for mode := 0; mode < 3; mode++ {
+		for _, m := range []map[int]*int{nil, {}} {
+			try(func() { r := a.DescribeMode(m, mode); record("a.DescribeMode", 0, r == nil, false, r) })
+		}
+	}
 	for key, o := range table {
 		fmt.Println(key, o.returned, o.outerNil, o.outerNon, o.innerNil, o.innerNon)
 	}
